@@ -77,7 +77,9 @@ pub struct Verdict {
     pub repointed: bool,
 }
 
-const STALE_FILES: [&str; 4] = ["/verif/harness/Cargo.toml", "/verif/properties.jsonl", "/verif/harness/src/main.rs", "/verif/check"];
+/// Files that exist long before the case starts, relative to the verification root (so that a run
+/// from a snapshot looks at the snapshot's own files, which nobody edits meanwhile).
+const STALE_FILES: [&str; 4] = ["harness/Cargo.toml", "properties.jsonl", "harness/src/main.rs", "check"];
 
 struct Env {
     dir_a: PathBuf,
@@ -90,7 +92,7 @@ impl Env {
     fn path(&self, f: FileRef) -> Option<PathBuf> {
         Some(match f {
             FileRef::FreshA(i) => self.dir_a.join(format!("fresh-{}", i % 4)),
-            FileRef::StaleA(i) => PathBuf::from(STALE_FILES[i as usize % STALE_FILES.len()]),
+            FileRef::StaleA(i) => crate::engine::verif_root().join(STALE_FILES[i as usize % STALE_FILES.len()]),
             FileRef::FreshB(i) => self.dir_b.as_ref()?.join(format!("fresh-{}", i % 4)),
             FileRef::Proc => PathBuf::from("/proc/self/stat"),
             FileRef::DevNull => PathBuf::from("/dev/null"),
@@ -160,6 +162,14 @@ fn execute(case: &Case) -> Verdict {
             fail(&mut v, "bad-pair:unlocked", format!("before call #{i}: get_base_time_unlocked returned ({before}, ..) which fails VouchedTime's voucher check"));
             break;
         }
+        // Change-times before the call, of every file the case can name: if somebody outside the
+        // harness changes one of them while the call runs, both values (and what lies between) are legitimate.
+        let ctimes_before: std::collections::HashMap<PathBuf, u64> = (0..4u8)
+            .flat_map(|k| [FileRef::FreshA(k), FileRef::FreshB(k), FileRef::StaleA(k)])
+            .filter_map(|f| env.path(f))
+            .chain(env.trusted_paths.iter().cloned())
+            .filter_map(|p| std::fs::metadata(&p).ok().map(|m| (p, ctime_ms(&m))))
+            .collect();
         // Change-times the call may legitimately move the base time to.
         let mut allowed: Vec<PathBuf> = vec![];
         let mut returned: Vec<(u64, raffle::Voucher, &'static str)> = vec![];
@@ -329,13 +339,18 @@ fn execute(case: &Case) -> Verdict {
                 break;
             }
             // Only files that (now) live on a trusted device count as evidence.
-            let ctimes: Vec<u64> = allowed
+            let evidence: Vec<(u64, u64)> = allowed
                 .iter()
-                .filter_map(|p| std::fs::metadata(p).ok())
-                .filter(|m| env.trusted_devs.contains(&m.dev()))
-                .map(|m| ctime_ms(&m))
+                .filter_map(|p| std::fs::metadata(p).ok().map(|m| (p, m)))
+                .filter(|(_, m)| env.trusted_devs.contains(&m.dev()))
+                .map(|(p, m)| {
+                    let now = ctime_ms(&m);
+                    let was = ctimes_before.get(p).copied().unwrap_or(now);
+                    (was.min(now), was.max(now))
+                })
                 .collect();
-            if !ctimes.contains(&after) {
+            let ctimes: Vec<u64> = evidence.iter().map(|e| e.1).collect();
+            if !evidence.iter().any(|(lo, hi)| (*lo..=*hi).contains(&after)) {
                 fail(
                     &mut v,
                     "moved-to-unknown-time",
